@@ -113,7 +113,7 @@ def run_scenario(sc, base, repo, harness):
         return dict(workdir=str(ws), xpname=r["xpname"], ctl=str(ctl), sid=r["sid"], run=r["run"],
                     result=str(wd / f"res.{r['sid']}.{r['run']}.json"),
                     workload=r.get("workload") or dict(kind=sc["kind"], tags=sc["tags"]),
-                    trace=r.get("trace", True), kill=r.get("kill"), barrier=r.get("barrier"), post_delay=r.get("post_delay"), pause=r.get("pause"), pause_at=r.get("pause_at"), freeze=r.get("freeze"), trace_write=r.get("trace_write"), debuglog=(str(wd / f"debug.{r['sid']}.{r['run']}.log") if r.get("debug") else None), maxlife=sc.get("timeout", 60) + 10,
+                    trace=r.get("trace", True), kill=r.get("kill"), barrier=r.get("barrier"), post_delay=r.get("post_delay"), pause=r.get("pause"), pause_at=r.get("pause_at"), freeze=r.get("freeze"), trace_write=r.get("trace_write"), trace_process=r.get("trace_process"), debuglog=(str(wd / f"debug.{r['sid']}.{r['run']}.log") if r.get("debug") else None), maxlife=sc.get("timeout", 60) + 10,
                     maxwait=r.get("maxwait", sc.get("timeout", 60)), pythonpath=pythonpath)
 
     def launch(r, wait=False):
